@@ -1,5 +1,6 @@
 //! cvh - conformance harness binding the TLA+ specifications under /verif/spec to the real
 //! cadence code (built from /repo's working tree with --cfg cadence_verif).
+mod client;
 mod common;
 mod holder;
 mod queue;
@@ -16,6 +17,11 @@ fn main() {
     match argv[1].as_str() {
         "writer-replay" => writer::replay(&args),
         "writer-drive" => writer::drive(&args),
+        "client-replay" => client::replay(&args),
+        "client-drive" => client::drive(&args),
+        "hostile-api" => client::hostile_api(&args),
+        "values-replay" => client::values_replay(&args),
+        "macro-child" => client::macro_child(&args),
         "holder-probe" => holder::probe(&args),
         "holder-replay" => holder::replay(&args),
         "holder-stress" => holder::stress(&args),
